@@ -7,6 +7,8 @@ CONSTANTS
   MAXPK = 4
   SCALES <- SCALES_unit
   LABS <- LABS_t
+  NBAD = 0
+  UBADS <- UBADS_none
 INVARIANT HSym
 INVARIANT CountOK
 INVARIANT CauchyBinet
@@ -14,5 +16,6 @@ INVARIANT StrictBoundary
 INVARIANT ScoreDef
 INVARIANT Covariant
 INVARIANT FixedPoint
+INVARIANT SubList
 INVARIANT Emit
 CHECK_DEADLOCK FALSE
